@@ -6,7 +6,9 @@ From Coq Require Import List NArith ZArith Arith Bool.
 From Dimod Require Import Base.Util Gen.Gen_Codec Model.Codec Model.ChkC09.
 Import ListNotations.
 
-Inductive fmt := FBqm | FQm.
+Inductive fmt := FBqm | FQm
+  | FExpr                 (* an expression member (objective / lhs) of a CQM zip *)
+  | FVinfo (n : nat).     (* the varinfo member of a CQM zip with n variables *)
 
 Record case := mkCase {
   c_fmt : fmt;
@@ -38,4 +40,6 @@ Definition check (c : case) : bool :=
   match c_fmt c with
   | FBqm => check_with bqmfile_eqb bqm_decode c
   | FQm => check_with qmfile_eqb qm_decode c
+  | FExpr => check_with exprfile_eqb expr_decode c
+  | FVinfo n => check_with (list_eqb bytes_eqb) (dec_tsection MAGIC_VTYP NLEN_VTYP (pd_chunks n 17)) c
   end.
